@@ -47,6 +47,16 @@ OutcomeOK(o, L) ==
      /\ o.probe = ""
      /\ (o.haspos => (0 <= o.pos /\ (o.pos < L \/ L = 0)))
 
+\* the line and column an error reports for itself belong together
+MinOf(a, b) == IF a <= b THEN a ELSE b
+ContextOK(o, src) ==
+  (o.kind = "liquid" /\ o.hasctx) =>
+     \* the reported line (right-stripped) lies in the source exactly `col` characters before the position
+     LET at == MinOf(o.pos, Len(src)) - o.col IN
+     /\ o.line >= 1 /\ o.col >= 0
+     /\ at >= 0 /\ at + Len(o.cur) <= Len(src)
+     /\ SubSeq(src, at + 1, at + Len(o.cur)) = o.cur
+
 Clause(tr) ==
   LET L == Len(tr.src) IN
   IF tr.tok.kind = "ok" /\ ~Tiling(tr.tok.tokens, L) THEN "tiling"
@@ -57,6 +67,9 @@ Clause(tr) ==
   ELSE IF ~OutcomeOK(tr.parse, L) THEN "parse-error-" \o (IF tr.parse.probe # "" THEN tr.parse.probe ELSE "position")
   ELSE IF tr.render.kind = "nonliquid" THEN "render-raised-" \o tr.render.cls
   ELSE IF ~OutcomeOK(tr.render, L) THEN "render-error-" \o (IF tr.render.probe # "" THEN tr.render.probe ELSE "position")
+  ELSE IF ~ContextOK(tr.tok, tr.src) THEN "tokenize-error-context"
+  ELSE IF ~ContextOK(tr.parse, tr.src) THEN "parse-error-context"
+  ELSE IF ~ContextOK(tr.render, tr.src) THEN "render-error-context"
   ELSE IF ~tr.nodes_in_source THEN "node-position"
   ELSE ""
 
